@@ -13,7 +13,9 @@ from props import C10 as c10
 
 PROP = "C01"
 GEN_TARGETS = ["summarize_final", "failed_count", "failed_setup_script_count", "on_test_finished",
-               "on_setup_script_finished", "is_success", "exec_run_exit", "command_exit"]
+               "on_setup_script_finished", "is_success", "exec_run_exit", "command_exit",
+               # fifth round: the only early `return Ok(0)` of exec_run is taken iff --no-run (an empty list runs)
+               "exec_run_early_return"]
 # counters read by summarize_final (indices into the 17-vector)
 VERDICT_FIELDS = [0, 1, 2, 3, 5, 6, 7, 11, 13, 15]
 
